@@ -159,6 +159,21 @@ def coarse(cases):
     return [(g, n, sc, sk, "pass" if v == "pass" else "fail", lg) for g, n, sc, sk, v, lg in cases]
 
 
+def helper_tie():
+    """(registered names from Gen/TestRunHelpers.v, names the generator's tables write)"""
+    import re
+    try:
+        txt = open(os.path.join(V.COQ, "Gen", "TestRunHelpers.v")).read()
+    except OSError:
+        return None, set()
+    reg = re.findall(r'^  \("([a-z_.]+)", \(\[', txt, re.M)
+    text = " ".join([str(a) + " " + str(b) for a, b in list(T.ASSERTS.values()) + list(T.STATEFUL.values())]
+                    + [" ".join(x["mut"].values()) + " " + str(x.get("obs")) + " " + str(x.get("undo", "")) for x in T.RES]
+                    + [str(T.AUX_TESTS), str(getattr(T, "TEST_DECLS", ""))])
+    used = set(re.findall(r"\b((?:assert|testing)(?:\.[a-z_]+)?)\(", text))
+    return (reg or None), used
+
+
 def run(ctx):
     if ctx.replay:
         import random
@@ -185,6 +200,10 @@ def run(ctx):
         "this is C10_quiet_condition_in_store_model at the level of every observable (fresh garbage cells are not observable)",
     ]
     violations_before = len(ctx.violations)
+    reg, used = helper_tie()
+    ctx.obligation("every test-only function the generator writes is registered in tester/function/functions.go (Gen/TestRunHelpers.v)",
+                   reg is not None and not (used - set(reg)),
+                   "" if reg is not None and not (used - set(reg)) else "not registered: %s" % sorted(used - set(reg or ())))
 
     # ------------------------------------------------------------------ known finding: corpus
     n_corpus = corpus_known(ctx, falco, work)
@@ -378,6 +397,9 @@ def run(ctx):
                        "searched": "%d runs of the test runner agree with the model; no order / coverage dependence" % n_api})
     s0 = suites[0]
     ctx.samples = [{"main.vcl": s0.main_vcl()[:1200], "main.test.vcl": s0.test_vcl(s0.items())[:1200]}]
+    ctx.coverage["helpers_registered_in_source"] = len(reg or ())
+    ctx.coverage["helpers_written_by_generator"] = sorted(used)
+    ctx.coverage["helpers_never_written_by_generator"] = sorted(set(reg or ()) - used)
     ctx.coverage.update({
         "evaluations": n_api + n_cli,
         "distinct_nontrivial": len(nontrivial),
